@@ -8,7 +8,7 @@ def check(tier, seed):
     return G.generic_check(PID, "exploration", tier, seed, coq=False,
         rule="protocol-valid sessions against a real UciHandler through pipes (as a GUI drives it): per go command exactly one bestmove; infinite/ponder searches answered only after stop/ponderhit; isready answered while searching; stop prompt (<2 s); 'go depth 1 wtime..' followed at once by 'go infinite' (stale timer); position command vs independent replay (FEN and key through the verif hook); setoption true/false changes exactly one line of 'Print Config'; ucinewgame + depth 4 search vs a fresh engine with Use_Hash on and off; a case = one go command",
         streams=[dict(name='session_monitor', kind="monitor", shards=lambda t: 4 if t == "quick" else 16,
-                      args=lambda t, s, sh, path: ['c12-monitor', 10 if q else 150, s * 1000 + sh])])
+                      args=lambda t, s, sh, path: ['c12-monitor', 10 if t == "quick" else 150, s * 1000 + sh])])
 
 
 def replay(path):
